@@ -67,6 +67,20 @@ theorem vint64_gen_no_panic (v b x : Nat) :
 
 example : writeUsizeG 16384 = [4, 0, 2] ∧ readUsizeG [4, 0, 2, 9] = .ok (16384, [9]) := by decide
 
+/-- ★ tie T for the untrusted-byte guards: the decoders of `TraceInfo`, `ProofOptions` and `Context` of the
+    model ARE `read_from` over the guards regenerated from air/src/air/trace_info.rs, air/src/options.rs and
+    air/src/proof/context.rs on this run (Winter/Gen/ReadGuards.lean: which byte values are refused, `checked_shl`,
+    the `u32::MAX` size limits) followed by the regenerated constructors' assertions; in particular
+    `ProofOptions::read_from` refuses exactly what `ProofOptions::new` would panic on -/
+theorem read_from_guards_gen :
+    traceInfo.dec = traceInfoDecG ∧ proofOptions.dec = proofOptionsDecG ∧ context.dec = contextDecG :=
+  ⟨C12G.traceInfo_dec_eq_gen, C12G.proofOptions_dec_eq_gen, C12G.context_dec_eq_gen⟩
+
+/-- ★ `TraceInfo::new_multi_segment` (regenerated) is `TraceInfo.wf` -/
+theorem gen_trace_info_new_eq_wf (t : TraceInfo) (h : t.length < 18446744073709551616) :
+    Gen.TraceInfo.new_multi_segment_ok t.main t.aux t.rands t.length t.metadata = t.wf :=
+  C12G.gen_trace_info_new_eq_wf t h
+
 -- ------------------------------------------------------------------------------------------------
 -- fixed-width integers, composition
 
